@@ -6,6 +6,7 @@ Property theorems only (model: Model.lean; proofs: Lemmas / Invariant / Converge
 import SemaModel.C14.Witness
 import SemaModel.C14.Msgs
 import SemaModel.C14.ConcTerm
+import SemaModel.C14.ConcMsgs
 import SemaModel.Generated.FactsC14
 namespace Sema.C14
 
@@ -267,6 +268,37 @@ theorem C14_converges_concurrent_maximal (cfg : Cfg N K) (hs : SumOK cfg) (hcs :
     obtain ⟨t, ht⟩ := cstep_progress cfg rkeys fkeys _ n hun hf
     rw [hmax t] at ht
     cases ht
+
+/-- `messages` (the list `C14_chunks` is about) is what the CONCURRENT program sends: under the hypotheses
+of `C14_converges_concurrent`, for every schedule that lets every `Sync` return and every shard `k`
+that a started node `n` holds (content `c`) without being its owner, the `(ChunkIndex, ChunkData)`
+pairs of node `n`'s `RPCSendShard` calls for `k` along the schedule (`cmsgs`: read off the steps of
+`n`'s goroutines, wherever the other threads' steps fall in between) are exactly `messages cs c` —
+also when an earlier attempt was interrupted in the middle of that file (it starts over at chunk 0). -/
+theorem C14_concurrent_sends_messages (cfg : Cfg N K) (hs : SumOK cfg) (hcs : 0 < cfg.cs) (htr : cfg.trunc0 = true)
+    (ro fo : K → Option Content) (nodes : List N) (rkeys fkeys : List K) (s0 s : St N K) (sched : List (Tid N))
+    (hne : ∀ k c, fo k = some c → c ≠ []) (hfd : ∀ k, (fo k).isSome → cfg.up (cfg.fowner k) = true)
+    (hcov : Covers cfg ro fo nodes rkeys fkeys) (hnd : fkeys.Nodup)
+    (h0 : Init cfg ro fo s0) (hr : Reachable cfg s0 s)
+    (hfin : ∀ n, cfg.up n = true → finished (crun cfg rkeys fkeys sched (cinit s)) n = true)
+    (n : N) (k : K) (c : Content) (hun : cfg.up n = true) (hno : n ≠ cfg.fowner k) (hc : s.files n k = some c) :
+    cmsgs cfg rkeys fkeys n k sched (cinit s) = messages cfg.cs c := by
+  have hok : RoundOK cfg ro fo nodes rkeys fkeys := ⟨⟨hs, hcs, htr, hne, hfd⟩, hcov, hnd⟩
+  rw [cmsgs_spec hok n k sched (cinit s) (cinv_init (inv_reachable hs h0.inv hr)) hfin]
+  unfold remaining
+  rw [if_pos ⟨hun, hno⟩]
+  show (match s.files n k with
+    | none => []
+    | some cnt => if Pc.isBoot (Pc.boot : Pc N K) = true then messages cfg.cs cnt else _) = _
+  rw [hc]
+  rfl
+
+/-- non-vacuity: shard 3 = `[4,5,6]` of node 1 in `cSched` (its chunks alternate with those of shards 2 and
+4 of node 0; an earlier attempt had left `[4,5]` at the owner) -/
+example : cmsgs cCfg cRkeys cFkeys 1 3 cSched (cinit cS1) = [(0, [4, 5]), (1, [6]), (2, [])] := by decide
+example : cmsgs cCfg cRkeys cFkeys 1 3 cSched (cinit cS1) = messages 2 [4, 5, 6] :=
+  C14_concurrent_sends_messages cCfg cSumOK (by decide) rfl cRo cFo [0, 1, 2] cRkeys cFkeys cS0 cS1 cSched
+    (by decide) (by decide) cCovers (by decide) cInit cReach cFinished 1 3 [4, 5, 6] rfl (by decide) (by decide)
 
 /-- After the synchronisation "all previously stored points remain readable through any node": a
 read that arrives at ANY started node `m` is routed to the routing owner of the key and answered
